@@ -245,9 +245,36 @@ Section Monitors2.
                                               bs "Proxy-Authorization"]))
                                 (e_hdr (snd ke))) (set_entries evs).
 
+  (* what is written for a full origin reply is that reply: status, body, every end-to-end field *)
+  Definition write_faithful (ke : bytes * stored_entry) : bool :=
+    let e := snd ke in
+    match call_index (e_hdr e) with
+    | None => true
+    | Some c =>
+        match find (fun cl => let '(i, _, _, _, _) := cl in i =? c) (fg_calls o ++ bg_calls o) with
+        | None => true
+        | Some cl =>
+            match reply_of_call cl with
+            | RErr => true
+            | RResp rep =>
+                if (p_status rep =? 304) then true     (* a freshened entry: C08 *)
+                else
+                  (e_status e =? p_status rep) &&
+                  (e_body e =? (if no_body_status (p_status rep) then -1 else c)) &&
+                  forallb (fun kv => in_names (fst kv) (spec_hop_by_hop (p_hdr rep)) ||
+                                     match alookup (fst kv) (e_hdr e) with
+                                     | Some vs => forallb2_eq vs (snd kv)
+                                     | None => false
+                                     end) (p_hdr rep) &&
+                  forallb (fun kv => amem (fst kv) (p_hdr rep) || beq (fst kv) (bs "Date")) (e_hdr e)
+            end
+        end
+    end.
+
   Definition mon_C05 : verdict :=
     let hop_ok := stored_hop_free (x_events o ++ x_bg_events o) in
-    if negb hop_ok then VBad 5 else
+    if negb hop_ok then VBad 5
+    else if negb (forallb write_faithful (set_entries (x_events o ++ x_bg_events o))) then VBad 9 else
     match how_, resp_of o with
     | FromStore, Some r =>
         match stored_ with
